@@ -71,8 +71,10 @@ type recw struct {
 	rc      int // SetWriteDeadline calls that reached this writer
 	last    int // argument of the last WriteHeader call (what an outer WithCodeResponseWriter records); 200 if none
 	whCalls int // WriteHeader calls received
-	// lock probe only: a Write arriving while stall is set reports on stalled and waits for stall
+	// slow client: the first Write arriving from another goroutine than ServeHTTP's (that is, from
+	// inside the handler's Flush) while stall is set reports on stalled (buffered) and waits for stall
 	stall, stalled chan struct{}
+	stallUsed      atomic.Bool
 	sgid           int64
 	sret           *atomic.Bool
 	late           int
@@ -127,12 +129,9 @@ func (w *recw) writeHeader(code int) {
 }
 
 func (w *recw) Write(p []byte) (int, error) {
-	if w.stall != nil {
-		select {
-		case w.stalled <- struct{}{}:
-			<-w.stall
-		default:
-		}
+	if w.stall != nil && gid() != w.sgid && w.stallUsed.CompareAndSwap(false, true) {
+		w.stalled <- struct{}{}
+		<-w.stall
 	}
 	w.mu.Lock()
 	defer w.mu.Unlock()
